@@ -315,34 +315,43 @@ def _identities(cfg, cx, gs):
     cx.canary("canary[contract(0,1) vs contract(0,2)]", I.sym_call(lambda x: gi(x).contract(0, 1).data, A3),
               I.sym_call(lambda x: gi(x).contract(0, 2).data, A3))
     # tensor product commutative up to index transposition, parity summed
-    for (ka, pa), (kb, pb) in [((1, 0), (1, 1)), ((2, 0), (1, 0)), ((1, 1), (2, 1)), ((0, 1), (2, 0)), ((2, 0), (2, 1))]:
+    gf = lambda a, p=0: geom.GeometricFilter(a, p, D, True)
+    # operand classes: image (i) and filter (f, a subclass of the image class that needs odd, equal sides); the product and its
+    # commutation law do not depend on which class stands on which side
+    classes = [("i", "i")] + ([("f", "i"), ("i", "f"), ("f", "f")] if N % 2 == 1 else [])
+    for ((ka, pa), (kb, pb)), (ca, cb) in [(t, c) for t in [((1, 0), (1, 1)), ((2, 0), (1, 0)), ((1, 1), (2, 1)), ((0, 1), (2, 0)), ((2, 0), (2, 1))]
+                                            for c in classes]:
         X = S.var_array("X", (N,) * D + (D,) * ka)
         Y = S.var_array("Y", (N,) * D + (D,) * kb)
         meta = {}
+        ma, mb = (gf if ca == "f" else gi), (gf if cb == "f" else gi)
+        ctag = "" if (ca, cb) == ("i", "i") else f":cls={ca}{cb}"
 
-        def ab(x, y):
-            o = gi(x, pa) * gi(y, pb)
+        def ab(x, y, ma=ma, mb=mb, pa=pa, pb=pb, meta=meta):
+            o = ma(x, pa) * mb(y, pb)
             meta["ab"] = (o.k, o.parity)
             return o.data
 
-        def ba_t(x, y):
-            o = (gi(y, pb) * gi(x, pa)).transpose(tuple(range(kb, kb + ka)) + tuple(range(kb)))
+        def ba_t(x, y, ma=ma, mb=mb, pa=pa, pb=pb, ka=ka, kb=kb, meta=meta):
+            o = (mb(y, pb) * ma(x, pa)).transpose(tuple(range(kb, kb + ka)) + tuple(range(kb)))
             meta["ba"] = (o.k, o.parity)
             return o.data
         l = I.sym_call(ab, X, Y)
         r = I.sym_call(ba_t, X, Y)
-        cx.equal(f"a*b == (b*a)^T [{(ka, pa)}x{(kb, pb)}]", l, r, key=f"mul-comm:D={D}:{ka},{pa}:{kb},{pb}",
+        cx.equal(f"a*b == (b*a)^T [{(ka, pa)}x{(kb, pb)}{ctag}]", l, r, key=f"mul-comm:D={D}:{ka},{pa}:{kb},{pb}{ctag}",
                  replay=lambda vals, bvals, X=X, Y=Y, ab=ab, ba_t=ba_t: cx.deviates(
                      np.asarray(ab(jnp.asarray(cx.conc(X, vals)), jnp.asarray(cx.conc(Y, vals)))),
                      np.asarray(ba_t(jnp.asarray(cx.conc(X, vals)), jnp.asarray(cx.conc(Y, vals))))))
-        cx.structural(f"product type [{(ka, pa)}x{(kb, pb)}]", meta["ab"] == (ka + kb, (pa + pb) % 2) and meta["ba"] == meta["ab"],
-                      f"declared {meta}", key=f"mul-type:D={D}:{ka},{pa}:{kb},{pb}")
+        cx.structural(f"product type [{(ka, pa)}x{(kb, pb)}{ctag}]", meta["ab"] == (ka + kb, (pa + pb) % 2) and meta["ba"] == meta["ab"],
+                      f"declared {meta}", key=f"mul-type:D={D}:{ka},{pa}:{kb},{pb}{ctag}")
         # definition of the product: (a*b)[x][i..,j..] = a[x][i..] b[x][j..]
         ref = np.empty((N,) * D + (D,) * (ka + kb), dtype=object)
         for idx in np.ndindex(*ref.shape):
             px, ci, cj = idx[:D], idx[D:D + ka], idx[D + ka:]
             ref[idx] = X.a[px + ci] * Y.a[px + cj]
-        cx.equal(f"a*b definition [{(ka, pa)}x{(kb, pb)}]", l, ref, key=f"mul-def:D={D}:{ka},{pa}:{kb},{pb}")
+        cx.equal(f"a*b definition [{(ka, pa)}x{(kb, pb)}{ctag}]", l, ref, key=f"mul-def:D={D}:{ka},{pa}:{kb},{pb}{ctag}",
+                 replay=lambda vals, bvals, X=X, Y=Y, ab=ab, ref=ref: cx.deviates(
+                     np.asarray(ab(jnp.asarray(cx.conc(X, vals)), jnp.asarray(cx.conc(Y, vals)))), S.eval_array(ref, vals)))
     # value-level definitions of sum, difference, scalar multiple, transposition, pixel norm, Levi-Civita contraction
     for (k, par) in [(0, 1), (1, 0), (2, 1)]:
         X = S.var_array("P", (N,) * D + (D,) * k)
